@@ -43,8 +43,9 @@ def plan(tier):
             "required_classes": ["method:1site", "method:2site", "solver:direct", "solver:iterative", "nroots:1",
                                  "nroots:2", "nroots:3", "nroots:4", "omega", "stacked", "complex-H", "qn:none",
                                  "qn:one", "qn:two", "schedule:truncating-then-full", "inverse:-1", "model:holstein",
-                                 "model:xxz", "model:generic", "model:qc", "equality-checked",
-                                 "state-consistency-checked", "davidson-kernel"],
+                                 "model:xxz", "model:generic", "model:qc", "equality-checked:direct",
+                                 "equality-checked:iterative-converged", "equality-checked:sweep-energy",
+                                 "equality-checked:returned-eigenstate", "state-consistency-checked", "davidson-kernel"],
             "max_refused_frac": 0.2}
     if tier == "quick":
         base.update({"ncases": 160, "min_nontrivial": 20,
@@ -468,7 +469,14 @@ def run_chain_case(ctx):
         for e in proc:
             if e[0] > rmax + 2:
                 e[0] = int(rmax + 2)
-    if rng.random() < 0.08:
+    # on-the-fly site swapping: two-site update of a general Model with the fixed criterion; the setting must travel inside
+    # the CompressConfig entries of the procedure (integer entries make optimize_mps build fresh configs without it)
+    ofs = None
+    if method == "2site" and not stacked and omega is None and kind != "qc" and rng.random() < 0.14:
+        from renormalizer.utils.configs import OFS
+        ofs = [OFS.ofs_s, OFS.ofs_d, OFS.ofs_ds][int(rng.integers(0, 3))]
+        ctx.cls("ofs")
+    if ofs is None and rng.random() < 0.08:
         # a CompressConfig instead of an integer in one of the sweeps (threshold criterion)
         j = int(rng.integers(0, len(proc)))
         proc[j][0] = CompressConfig(CompressCriteria.threshold, threshold=float(10 ** rng.uniform(-6, -1)))
@@ -509,7 +517,11 @@ def run_chain_case(ctx):
         else:
             start.to_complex(inplace=True)
         ctx.cls("start:complex")
-    start.optimize_config.procedure = proc
+    if ofs is not None:
+        lib_proc = [[CompressConfig(CompressCriteria.fixed, max_bonddim=int(e[0]), ofs=ofs), e[1]] for e in proc]
+    else:
+        lib_proc = proc
+    start.optimize_config.procedure = lib_proc
     start.optimize_config.method = method
     start.optimize_config.algo = algo
     start.optimize_config.nroots = nroots
@@ -527,6 +539,8 @@ def run_chain_case(ctx):
             parts = [p for p in parts if p]
         mpo_run = StackedMpo([ctx.lib(Mpo, model, p, what="Mpo(part)", promised=False) for p in parts])
         ctx.cls("stacked")
+    elif ofs is not None:
+        mpo_run = ctx.lib(Mpo, model, what="Mpo", promised=False)      # swapped in place by the optimiser
     else:
         mpo_run = mpo_full
 
@@ -534,7 +548,7 @@ def run_chain_case(ctx):
             "sector": np.asarray(qntot).tolist(), "sector_dim": ds, "generic_ranks": ranks,
             "procedure": [[(e[0] if isinstance(e[0], int) else "threshold"), e[1]] for e in proc], "method": method,
             "algo": algo, "nroots": nroots, "omega": omega, "inverse": inverse, "stacked": bool(stacked),
-            "start": start_desc}
+            "start": start_desc, "ofs": None if ofs is None else str(ofs)}
     ctx.describe(desc)
     ctx.cls("method:" + method, "algo:" + algo, f"nroots:{nroots}", "schedule:" + sched_kind)
     if omega is not None:
@@ -665,7 +679,7 @@ def run_chain_case(ctx):
         ctx.cls("full-M-incomplete")
     # informative only (NOT an oracle): how often the usual "bond limit >= exact ranks, >= 3 final sweeps at percent 0"
     # regime ends at the exact energies although no micro-iteration spanned the whole sector
-    if (nexec >= 3 and not complete_sweeps and len(energies) == nexec
+    if (not stop and nexec >= 3 and not complete_sweeps and len(energies) == nexec
             and all((not truncating[s]) and proc[s][1] == 0 for s in range(nexec - 3, nexec))):
         last = np.sort(np.array(energies[-1], dtype=float).reshape(-1))
         err = float(np.max(np.abs(last - a[:len(last)]) / np.maximum(1.0, np.abs(a[:len(last)]))))
@@ -686,9 +700,23 @@ def run_chain_case(ctx):
                 src = calls[last_sw["first"] + j]
     last_entry = proc[nexec - 1] if 1 <= nexec <= len(proc) else None
     lossless = (last_entry is not None and isinstance(last_entry[0], int)
-                and (last_entry[0] >= gm.dim or (last_entry[1] == 0 and last_entry[0] >= rmax)))
-    for k, st in enumerate(rlist):
+                and (last_entry[0] >= gm.dim or (ofs is None and last_entry[1] == 0 and last_entry[0] >= rmax)))
+    dof2site = dense.dof_site_map(basis)
+
+    def dense_original_order(st):
+        """Dense vector of a returned state in the ORIGINAL site order (on-the-fly swapping reorders st.model.basis)."""
         psi = states.dense_of(st)
+        order = [dof2site[b.dofs[0]] for b in st.model.basis]          # new site k = original site order[k]
+        if order == list(range(n)):
+            return psi, False
+        new_dims = [b.nbas for b in st.model.basis]
+        pos = [order.index(j) for j in range(n)]
+        return psi.reshape(new_dims).transpose(pos).reshape(-1), True
+
+    for k, st in enumerate(rlist):
+        psi, reordered = dense_original_order(st)
+        if reordered:
+            ctx.cls("ofs:sites-reordered")
         ctx.count("oracle")
         if not ctx.check(bool(np.all(np.isfinite(psi))), "returned-state|non-finite", root=k):
             break
@@ -713,7 +741,9 @@ def run_chain_case(ctx):
         ctx.check(aval >= a[0] - slack_of(a[0], specr), f"returned-state|energy-below-exact-lowest|{tag}", root=k, got=aval,
                   exact=a[0])
         ctx.count("oracle")
-        got = ctx.lib(st.expectation, mpo_full, what="expectation")
+        # after a reordering the operator has to be rebuilt from the returned state's model (optimize_mps docstring)
+        got = ctx.lib(st.expectation, ctx.lib(Mpo, st.model, what="Mpo(reordered model)") if reordered else mpo_full,
+                      what="expectation")
         hscale = max(1.0, abs(hval))
         ctx.metric_max("expectation_vs_dense", abs(complex(got) - hval * nrm ** 2) / hscale)
         ctx.check(abs(complex(got) - hval * nrm ** 2) <= 1e-9 * hscale + 1e-13 * hfro,
@@ -729,25 +759,33 @@ def run_chain_case(ctx):
                       f"returned-state|energy-differs-from-its-micro-iteration|{method}|{src['solver']}"
                       + ("|omega" if omega is not None else "") + ("|nroots>1" if nroots > 1 else ""),
                       root=k, state_value=aval, reported=want)
-    # at convergence (>= 3 complete sweeps, lossless last sweep) the returned states are exact eigenstates
-    if (len(complete_sweeps) >= 3 and complete_sweeps[-1] == nexec - 1 and lossless and src is not None
-            and src["local_dim"] == ds and final_ok and len(rlist) <= len(a)):
+    # returned states copied losslessly from a complete micro-iteration that delivered eigenpairs are eigenstates of A
+    if lossless and src is not None and src["local_dim"] == ds and settled(src) and len(rlist) <= len(src["e"]):
         for k, st in enumerate(rlist):
-            psi = states.dense_of(st)
+            psi = dense_original_order(st)[0]
             ps = psi[idx] / max(np.linalg.norm(psi), 1e-300)
             if omega is None:
-                aval = inverse * float(np.vdot(ps, Hs @ ps).real)
+                av = inverse * (Hs @ ps)
             else:
                 v = Hs @ ps - omega * ps
-                aval = inverse * float(np.vdot(v, v).real)
+                av = inverse * (Hs @ v - omega * v)
+            aval = float(np.vdot(ps, av).real)
+            resid = float(np.linalg.norm(av - aval * ps))
             ctx.count("oracle")
             ctx.count("equality_checked")
-            err = abs(aval - a[k]) / max(1.0, abs(a[k]))
-            ctx.metric_max("returned-state-vs-exact", err)
-            ctx.check(err <= 2e-6 + 1e-10 * specr,
-                      f"full-bond-dimension|returned-state-energy-differs-from-exact|{tag}"
+            ctx.cls("equality-checked:returned-eigenstate")
+            ctx.metric_max("returned-eigenstate-residual/tol", resid / (1e-5 + 1e-9 * specr))
+            # Davidson's own residual criterion is 1e-6 (sqrt of tol 1e-12); the direct solver is exact to round-off
+            ctx.check(resid <= 1e-5 + 1e-9 * specr,
+                      f"full-bond-dimension|returned-state-is-not-an-eigenstate|{method}|{src['solver']}"
                       + ("|omega" if omega is not None else "") + ("|nroots>1" if nroots > 1 else ""),
-                      root=k, got=aval, exact=a[k])
+                      root=k, residual=resid, value=aval)
+            if src["solver"] == "eigh_direct":
+                ctx.count("oracle")
+                ctx.check(abs(aval - a[k]) <= 1e-8 * max(1.0, abs(a[k])) + 1e-10 * specr,
+                          f"full-bond-dimension|returned-state-energy-differs-from-exact|{method}|direct"
+                          + ("|omega" if omega is not None else "") + ("|nroots>1" if nroots > 1 else ""),
+                          root=k, got=aval, exact=a[k])
 
     # ---- non-triviality ------------------------------------------------------------------------------------
     executed_trunc = [truncating[s] for s in range(min(nexec, len(proc)))]
